@@ -14,7 +14,10 @@ import (
 // project's exit code recorded, iff (exit code != 0 and policy exit_on_failure) or exit_on_end;
 // a skip triggers iff exit_on_skipped and records 1.
 func VerifC04_ExitCode() {
-	r := &ProjectRunner{runningProcesses: map[string]*Process{}, project: vProject(), cancelAppFn: func() {}}
+	// (ShutDownProject ends with the cancellation of the application context: that call is the
+	// witness that the end of this process brought the project down)
+	broughtDown := false
+	r := &ProjectRunner{runningProcesses: map[string]*Process{}, project: vProject(), cancelAppFn: func() { broughtDown = true }}
 	code := verifInt("exit_code")
 	policy := verifStr("policy", 16)
 	onEnd := verifBool("exit_on_end")
@@ -26,11 +29,13 @@ func VerifC04_ExitCode() {
 		trigger := verifOr(verifAnd(code != 0, policy == types.RestartPolicyExitOnFailure), onEnd)
 		verifObserveInt("project_exit_code", r.exitCode)
 		verifAssert("end.exit.code", r.exitCode == verifIteInt(trigger, code, 0))
+		verifAssert("project.brought.down.iff.trigger", verifOr(verifAnd(trigger, broughtDown), verifAnd(verifNot(trigger), !broughtDown)))
 	} else {
 		verifShape("skipped")
 		r.onProcessSkipped(conf) // REAL code
 		verifObserveInt("project_exit_code", r.exitCode)
 		verifAssert("skip.exit.code", r.exitCode == verifIteInt(onSkipped, 1, 0))
+		verifAssert("project.brought.down.iff.exit_on_skipped", verifOr(verifAnd(onSkipped, broughtDown), verifAnd(verifNot(onSkipped), !broughtDown)))
 	}
 	verifReach("end")
 }
